@@ -193,7 +193,7 @@ class AbortSessionRequest(AbortSession):
         AvpGenDef("nas_port", AVP_NAS_PORT),
         AvpGenDef("nas_port_id", AVP_NAS_PORT_ID),
         AvpGenDef("nas_port_type", AVP_NAS_PORT_TYPE),
-        AvpGenDef("service_stype", AVP_SERVICE_TYPE),
+        AvpGenDef("service_type", AVP_SERVICE_TYPE),
         AvpGenDef("framed_ip_address", AVP_FRAMED_IP_ADDRESS),
         AvpGenDef("framed_ipv6_prefix", AVP_FRAMED_IPV6_PREFIX),
         AvpGenDef("framed_interface_id", AVP_FRAMED_INTERFACE_ID),
